@@ -145,12 +145,12 @@ def resolveRow (m : RowMode) (c : CPar) : Bool :=
 
 /-- parameters the sizing routine is called with for match-finder flavour `useRow`: ZSTD_getCParamsFromCCtxParams (source size unknown)
 caps the hash log for the row finder unless the mode is explicitly disabled (automatic counts as enabled there); the long-distance
-switch, left automatic in such a parameter set, is NOT resolved by these estimates (they test `enableLdm == ZSTD_ps_enable`) -/
+switch, left automatic in such a parameter set, is resolved on these parameters (ZSTD_resolveEnableLdm: strategy ≥ btopt and
+windowLog ≥ 27, /repo 3f7e135) and its defaults filled in (ZSTD_ldm_adjustParameters), as in `rpOfCParams` -/
 def rpOfCCtxParams (c : CPar) (mode : RowMode) (useRow : Bool) (stream : Bool) : RP :=
   let capped := decide (mode ≠ RowMode.disable) && rowSupported c.strategy
   { rpOfCParams c useRow stream with
-    hashLog := if capped then capRowHash c.hashLog c.searchLog else c.hashLog,
-    ldm := false, ldmHashLog := 0, ldmBucketSizeLog := 0, ldmMinMatch := 0 }
+    hashLog := if capped then capRowHash c.hashLog c.searchLog else c.hashLog }
 
 /-- ZSTD_estimateCCtxSize_usingCCtxParams (`stream = false`): with the mode left automatic and a strategy that has a row finder, the
 larger of the two flavours (the compressor resolves the automatic mode on parameters ADJUSTED to the source size, so either can be
@@ -189,5 +189,10 @@ def leB (p q : RP) : Bool :=
   decide (p.minMatch = q.minMatch) && decide (p.strategy = q.strategy) && decide (p.useRow = q.useRow) && decide (p.ldm = false) &&
   decide (p.extSeq = q.extSeq) && decide (p.maxBlockSize ≤ q.maxBlockSize) && decide (p.isStatic = q.isStatic) &&
   decide (p.buffIn ≤ q.buffIn) && decide (p.buffOut ≤ q.buffOut)
+
+/-- domination test for jobs WITH long-distance matching: same switch, bucket log and minimum match, hash log not larger, everything else dominated as in `leB` -/
+def leLB (p q : RP) : Bool :=
+  leB { p with ldm := false } { q with ldm := false } && decide (p.ldm = q.ldm) && decide (p.ldmHashLog ≤ q.ldmHashLog) &&
+  decide (p.ldmBucketSizeLog = q.ldmBucketSizeLog) && decide (p.ldmMinMatch = q.ldmMinMatch)
 
 end ZstdVerif.Estimate
